@@ -1,11 +1,26 @@
 """C07, whole-simulation part: the conditional clauses monitored on every generated simulation (S-sim)."""
+import json
+import os
+
+import core
 import simcheck
+import simcommon
 import simmon
 
 TRUSTED = simcheck.TRUSTED_SIM
 
 
 def run(ctx):
-    simcheck.run_sim_property(ctx, [], simmon.mon_c07,
+    simcheck.run_sim_property(ctx, [], lambda r, w: simmon.mon_c07(r, w),
                               "a completed conditional did not release exactly one runnable child / did not cancel its "
-                              "siblings, or resolution at submission left a reachable conditional without exactly one resolved child", machine=False)
+                              "siblings, the branch that was taken did not go on, a join or task was cancelled without a reason, "
+                              "or resolution at submission left a reachable conditional without exactly one resolved child",
+                              machine=False)
+    for k in core.load_known():
+        if k.get("status") == "known" and k.get("property") == "C07" and k.get("id") == "F42":
+            w = json.load(open(os.path.join(core.ROOT, k["witness"])))
+            r = simcommon.run_worlds([w], jobs=1, chunk=1)[0]
+            hits = []
+            simmon.mon_c07(r, w, hits)
+            if hits:
+                ctx.known("F42", k["what_fails"])
